@@ -25,6 +25,13 @@ and a write to a linked writer is handed to every linked reader (`deliver`), so 
 every cell of a new row is `none` = owed, and `gWrite` reports "accepted" exactly when the writer has
 links. No `refused` marker is needed here.
 
+Write copies: every delivery hands the reader a packet with a NEW id (`deliver` takes `g.next`), as
+`Writer.Write` hands every linked reader `New(pck.Payload())` – also when the writer has a single reader.
+Packet identity therefore never survives a hop: an action that hands its in packet to several outputs
+(`Rel.sames`) that fan in to one in-port, or a client that writes one packet object twice (the driver's
+`resend`), produces independent requests downstream (`C02.deliver_copies`). A packet written several
+times has the copies of all its writes as children in the ghost tree (`gWrite` appends to `dels`).
+
 Ghost state (never read by the machine itself): `log` records the derivation tree as it unfolds –
 which packets an action derived from a request (`acts`), which copies a write handed to the linked
 readers (`dels`), which packets were answered with themselves because nobody accepted them (`echo`),
@@ -163,7 +170,9 @@ def gWrite (g : G) (key : Nat) (qid : Pid) (v : Val) : G × Bool :=
     let w := getWriter g key
     let g := { g with writers := aset g.writers key { w with rows := w.rows ++ [List.replicate tgts.length none] } }
     let (g, cs) := deliverAll key v tgts g
-    ({ g with log := { g.log with dels := aset g.log.dels qid cs } }, true)
+    -- a packet written once more (an action handing its input packet to several outputs) keeps the
+    -- copies of its earlier writes: its answer is the join over all of them
+    ({ g with log := { g.log with dels := aset g.log.dels qid (getL g.log.dels qid ++ cs) } }, true)
 
 def logEcho (g : G) (q : Pkt) : G :=
   { g with log := { g.log with echo := aset g.log.echo q.id q.pay } }
@@ -295,6 +304,7 @@ inductive Rel where
   | err (v : Val)                  -- a new packet on the error port
   | many (vs : List (Option Val))  -- one-to-many: a new packet per `some`
   | drop                           -- nil / no packets
+  | sames (k : Nat)                -- one-to-many: the in packet itself on the outputs 0..k-1 (`[in, in, …]`)
 
 def allocOuts : List (Option Val) → Pid → List (Option Pkt) × Pid
   | [], nx => ([], nx)
@@ -321,6 +331,7 @@ def release (g : G) (n : Nat) (r : Rel) : Option G :=
         | .err v => (.err { id := g.next, pay := v }, g.next + 1)
         | .many vs => let (qs, nx) := allocOuts vs g.next; (.outs qs, nx)
         | .drop => (.outs [], g.next)
+        | .sames k => (.outs (List.replicate k (some p)), g.next)
       match step nd (.finish i o) with
       | none => none
       | some (nd', ev) =>
@@ -381,6 +392,7 @@ def runExt : G → List Ext → G
 /-- the action returns new packets (not its input packet) -/
 def Ext.fresh : Ext → Bool
   | .release _ .same => false
+  | .release _ (.sames _) => false
   | _ => true
 
 /-- nothing left to do: no sink holds a request, no answer waits in a writer's pump, every tracer is
